@@ -3,10 +3,12 @@
 // sec: many attacks inside one ordinary history, all shadow-model oracles stay active afterwards.
 // dbg: one attack per case; the case ends at the first *expected* report (debug assertions after a detected error are outside the claim).
 #include "seq.hpp"
+#include <thread>
+#include <system_error>
 
 namespace seq {
 
-static uint64_t g_att_double = 0, g_att_overflow = 0, g_att_forged = 0, g_att_skipped = 0, g_forged_allocs_until_report = 0, g_att_classes_n = 0;
+static uint64_t g_att_migrated = 0, g_att_remote_overflow = 0, g_att_forged_walk = 0, g_att_double = 0, g_att_overflow = 0, g_att_forged = 0, g_att_skipped = 0, g_forged_allocs_until_report = 0, g_att_classes_n = 0;
 static std::set<size_t> g_att_classes;
 static volatile int g_expect_code = 0;       // error code the running attack must produce
 static volatile int g_expect_seen = 0;
@@ -76,6 +78,14 @@ static void attack_double_free(State& S) {
   if (!area_has_other_live(S, victim)) { g_att_skipped++; return; }
   void* p = victim->p;
   do_free(S, victim, EP_free);            // first free (legitimate)
+  // between the two frees (no allocation of that class, so the block cannot have been handed out again): nothing, or the freed block migrates
+  // from the page's local free list to its free list (collect), or unrelated activity in other size classes
+  switch (vf_rng_below(&S.rng, 5)) {
+    case 1: vf_cur_what = "collect between frees"; mi_collect(false); g_att_migrated++; break;
+    case 2: vf_cur_what = "collect between frees"; mi_heap_collect(S.heaps[S.cur_default].h, true); g_att_migrated++; break;
+    case 3: { size_t other = (n < 4096 ? n * 3 + 4096 : n / 3); vf::Blk* x = do_alloc(S, EP_malloc, other); if (x) do_free(S, x, EP_free); break; }
+    default: break;
+  }
   vf_cur_what = "second free";
   begin_attack(EAGAIN);
   g_att_double++; g_att_classes.insert(mi_good_size(n));
@@ -88,6 +98,7 @@ static void attack_double_free(State& S) {
 // (2) a foreign byte just past the requested size
 static void attack_overflow(State& S) {
   size_t n = attack_size(S);
+  if (vf_rng_chance(&S.rng, 1, 4)) n = 1 + (size_t)vf_rng_below(&S.rng, 16);     // tiny blocks: the padding shares the block's last word
   vf::Blk* b = do_alloc(S, (vf_rng_chance(&S.rng, 1, 2) ? EP_malloc : EP_zalloc), n);
   if (b == nullptr) { g_att_skipped++; return; }
   uint8_t* p = b->p; n = b->n;
@@ -98,10 +109,18 @@ static void attack_overflow(State& S) {
   // a few ordinary operations may happen in between
   vf_cur_what = "free of an overflowed block";
   S.sm.verify(b, "before free of the overflowed block");
+  const int blk_heap = b->heap;
   S.sm.remove(b);
   begin_attack(EFAULT);
   g_att_overflow++; g_att_classes.insert(mi_good_size(n));
-  mi_free(p);
+  if (!S.cfg.debug && vf_rng_chance(&S.rng, 1, 3)) {
+    // the overflowed block is freed by another thread (the report must come all the same)
+    g_att_remote_overflow++;
+    try { std::thread t([p]() { mi_free(p); }); t.join(); } catch (const std::system_error& e) { vf_trip("harness", "", "cannot create a thread: %s", e.what()); }
+    // the owner takes the remotely freed block over inside the attack window (the overflow may be reported again at that point)
+    if (blk_heap >= 0 && S.heaps[blk_heap].alive) mi_heap_collect(S.heaps[blk_heap].h, false);
+  }
+  else mi_free(p);
   S.n_free++;
   end_attack(S, "write of a foreign byte just past the requested size", "overflow-undetected", n, p);
   if (S.cfg.secure) check_conservation(S, "after a reported overflow", "C17");
@@ -150,10 +169,51 @@ static void attack_forged_link(State& S) {
   if (S.cfg.secure) check_conservation(S, "after a reported free-list corruption", "C17");
 }
 
+// (3b) the forged link is reached by the list walk of the double-free check instead of by an allocation: it must be reported, not followed.
+// What the allocator may still hand out afterwards is not specified for two combined program errors, so this runs in a private heap
+// that is destroyed right after (secure build only).
+static void attack_forged_walk(State& S) {
+  int alive = 0; for (auto& e : S.heaps) if (e.alive) alive++;
+  if (alive >= 9 || S.cfg.debug) { g_att_skipped++; return; }
+  size_t n = attack_size(S); if (n > 8192) n = 64 + n % 4096;
+  mi_heap_t* h = mi_heap_new(); if (h == nullptr) { g_att_skipped++; return; }
+  HeapEnt e; e.h = h; e.alive = true; S.heaps.push_back(e);
+  int hi = (int)S.heaps.size() - 1;
+  S.force_heap = hi;
+  std::vector<vf::Blk*> bs;
+  for (int i = 0; i < 8; i++) { vf::Blk* b = do_alloc(S, EP_heap_malloc, n); if (b) bs.push_back(b); }
+  S.force_heap = -1;
+  if (bs.size() == 8 && area_has_other_live(S, bs[2])) {
+    uint8_t* p2 = bs[5]->p; uint8_t* p1 = bs[2]->p;
+    do_free(S, bs[5], EP_free);          // freed first: deeper in the list
+    do_free(S, bs[2], EP_free);          // freed second: the head, its link gets forged
+    uint64_t forged = vf_rng_next(&S.rng) | 1;
+    memcpy(p1, &forged, sizeof(forged));
+    vf_cur_what = "second free walking over a forged link";
+    vf_err_reset(); g_expect_code = EFAULT; g_expect_seen = 0; g_unexpected_code = 0;
+    g_att_forged_walk++;
+    mi_free(p2);                         // the double-free check walks the page's lists and meets the forged link
+    g_expect_code = 0;
+    int nerr = vf_err_count; if (nerr > VF_MAX_ERRS) nerr = VF_MAX_ERRS;
+    bool only = true; for (int i = 0; i < nerr; i++) if (vf_err_codes[i] != EAGAIN && vf_err_codes[i] != EFAULT) only = false;
+    if (g_expect_seen == 0 && vf_err_seen(EAGAIN) == 0)
+      vf_trip("forged-link-unreported", "C17", "a free whose double-free check walked over a forged free-list link (block %p, size %zu) reported neither EFAULT nor EAGAIN", (void*)p1, n);
+    if (!only) vf_trip("hardening-wrong-report", "C17", "unexpected error code %d while walking over a forged link: %s", (int)vf_err_codes[0], vf_last_msgs);
+    vf_err_reset();
+  }
+  else g_att_skipped++;
+  // drop the private heap with whatever state it is in
+  std::vector<vf::Blk*> mine; for (vf::Blk* b : S.sm.live) if (b->heap == hi) mine.push_back(b);
+  for (vf::Blk* b : mine) { S.sm.verify(b, "before destroying the attacked heap"); S.sm.remove(b); }
+  mi_heap_destroy(h);
+  S.heaps[hi].alive = false;
+  vf_err_reset();
+}
+
 static void harden_print(FILE* f) {
-  fprintf(f, ",\"hardening\":{\"double_free\":%llu,\"overflow\":%llu,\"forged_link\":%llu,\"skipped\":%llu,\"classes\":%zu,\"allocs_until_forged_reported\":%llu}",
+  fprintf(f, ",\"hardening\":{\"double_free\":%llu,\"overflow\":%llu,\"forged_link\":%llu,\"skipped\":%llu,\"classes\":%zu,\"allocs_until_forged_reported\":%llu,\"double_free_after_migration\":%llu,\"overflow_freed_remotely\":%llu,\"forged_link_met_by_double_free_walk\":%llu}",
           (unsigned long long)g_att_double, (unsigned long long)g_att_overflow, (unsigned long long)g_att_forged, (unsigned long long)g_att_skipped, g_att_classes.size(),
-          (unsigned long long)g_forged_allocs_until_report);
+          (unsigned long long)g_forged_allocs_until_report, (unsigned long long)g_att_migrated, (unsigned long long)g_att_remote_overflow, (unsigned long long)g_att_forged_walk);
   (void)g_att_classes_n;
 }
 
@@ -169,10 +229,11 @@ void run_hardening(State& S) {
   for (S.op_index = 0; S.op_index < S.cfg.ops; S.op_index++) {
     history_step(S);
     if (S.op_index >= next_attack) {
-      unsigned k = (unsigned)vf_rng_below(&S.rng, 3);
-      if (k == 0) attack_double_free(S);
-      else if (k == 1) attack_overflow(S);
-      else attack_forged_link(S);
+      unsigned k = (unsigned)vf_rng_below(&S.rng, 7);
+      if (k < 2) attack_double_free(S);
+      else if (k < 4) attack_overflow(S);
+      else if (k < 6) attack_forged_link(S);
+      else attack_forged_walk(S);
       next_attack = S.op_index + 40 + vf_rng_below(&S.rng, 160);
       if (S.cfg.debug && (g_att_double + g_att_overflow + g_att_forged) > 0) {
         // debug build and the attack was NOT reported (otherwise the callback ended the case)
